@@ -1,4 +1,300 @@
+//! C14 — the CORS fang applies the configured policy to every response and preflight.
+//! Scenario (vocabulary of specs/Cors.tla, applications as in specs/RouterApp.tla):
+//!   {"policy":{"origin":"star"|"o1"|"o2","cred":bool,"allowh":{"set":bool,"list":["h1",..]},"expose":{"set":bool,"list":[..]},"maxage":""|digits},
+//!    "apps":[{"fangs":[],"items":[route item | mount item]}..],      apps[0] carries the CORS fang: Ohkami::with((CORS,), ..)
+//!    "reqs":[{"method","path":[[chars]..],"trailing":n,"acrm":""|method token,"acrh":{"set":bool,"list":[..]},"origin":"none"|"o1"|"o2"|"o3"}..]}
+//! The application is assembled through the public API (hook: ohkami::__verif), every request goes through the real
+//! Request::read -> Router::handle (fangs + handlers) -> Response::send and is re-parsed by util::parse_response.
+//! Observation per request: status, body length, and the Access-Control-* header values projected back to the
+//! abstract tokens (lists split on ',' and trimmed).
+use crate::router;
+use crate::util::{self, arr, i, s, Rng};
+use ohkami::__verif as v;
+use ohkami::fang::CORS;
+use ohkami::prelude::*;
 use serde_json::{json, Value};
-pub fn run(_scn: &Value) -> Value { json!({"kind": "unimplemented"}) }
-#[allow(dead_code)]
-pub fn gen(_rng: &mut crate::util::Rng, i: usize) -> Value { json!({"id": i}) }
+use std::cell::Cell;
+
+thread_local! { static HIT: Cell<i64> = const { Cell::new(0) }; }
+
+/// concretisation of origins and header-name tokens (two representatives each, chosen by the seed)
+pub struct CTable { o1: &'static str, o2: &'static str, o3: &'static str, names: [&'static str; 8], sep: &'static str, lower: bool }
+pub fn ctable(seed: u64) -> CTable {
+    match (seed / 4) % 2 {
+        0 => CTable { o1: "https://foo.example", o2: "https://bar.example:8443", o3: "https://evil.example",
+                      names: ["Content-Type", "X-Custom", "X-Trace-Id", "Authorization", "Accept-Language", "X-Total-Count", "ETag", "X-Requested-With"],
+                      sep: ", ", lower: false },
+        _ => CTable { o1: "http://localhost:3000", o2: "https://a.b.c.example", o3: "http://10.0.0.1:8080",
+                      names: ["X-Requested-With", "authorization", "X-Api-Key", "Content-Type", "If-Match", "Link", "X-Rate-Limit", "x-id"],
+                      sep: ",", lower: true },
+    }
+}
+impl CTable {
+    fn origin(&self, tok: &str) -> &'static str { match tok { "star" => "*", "o1" => self.o1, "o2" => self.o2, _ => self.o3 } }
+    fn unorigin(&self, text: &str) -> String {
+        if text == "*" { "star".into() } else if text == self.o1 { "o1".into() } else if text == self.o2 { "o2".into() } else if text == self.o3 { "o3".into() } else { format!("?{}", util::clip(text, 40)) }
+    }
+    fn name(&self, tok: &str) -> &'static str {
+        match tok.strip_prefix('h').and_then(|n| n.parse::<usize>().ok()) { Some(n) if (1..=8).contains(&n) => self.names[n - 1], _ => util::leak(tok.to_string()) }
+    }
+    fn unname(&self, text: &str) -> String {
+        match self.names.iter().position(|n| n.eq_ignore_ascii_case(text)) { Some(k) => format!("h{}", k + 1), None => format!("?{}", util::clip(text, 40)) }
+    }
+}
+
+fn build_cors(pol: &Value, ct: &CTable) -> CORS {
+    let mut c = CORS::new(ct.origin(s(&pol["origin"])));
+    if pol["cred"].as_bool().unwrap_or(false) { c = c.AllowCredentials() }
+    let names = |l: &Value| -> Vec<&'static str> { arr(l).iter().map(|t| ct.name(s(t))).collect() };
+    macro_rules! list { ($c:ident, $m:ident, $l:expr) => {{ let l = $l; match l.len() {
+        0 => $c.$m([]), 1 => $c.$m([l[0]]), 2 => $c.$m([l[0], l[1]]), 3 => $c.$m([l[0], l[1], l[2]]),
+        4 => $c.$m([l[0], l[1], l[2], l[3]]), 5 => $c.$m([l[0], l[1], l[2], l[3], l[4]]),
+        _ => $c.$m([l[0], l[1], l[2], l[3], l[4], l[5]]) } }} }
+    if pol["allowh"]["set"].as_bool().unwrap_or(false) { c = list!(c, AllowHeaders, names(&pol["allowh"]["list"])) }
+    if pol["expose"]["set"].as_bool().unwrap_or(false) { c = list!(c, ExposeHeaders, names(&pol["expose"]["list"])) }
+    let ma = s(&pol["maxage"]);
+    if !ma.is_empty() { c = c.MaxAge(ma.parse::<u32>().expect("maxage token")) }
+    c
+}
+
+/// what handler `id` answers: success with a body, an error, a refusal with a body
+fn respond(id: i64) -> Response {
+    HIT.with(|h| h.set(id));
+    match id % 4 { 2 => Response::InternalServerError(), 3 => Response::Forbidden().with_text("denied"), _ => Response::OK().with_text(format!("h{id}")) }
+}
+fn with_methods(mut hs: v::HandlerSet, methods: &[Value], id: i64) -> v::HandlerSet {
+    macro_rules! reg { ($m:ident) => { hs = hs.$m(move || async move { respond(id) }) } }
+    for m in methods { match s(m) { "GET" => reg!(GET), "POST" => reg!(POST), "PUT" => reg!(PUT), "PATCH" => reg!(PATCH), "DELETE" => reg!(DELETE), _ => {} } }
+    hs
+}
+fn nparams(segs: &Value) -> usize { arr(segs).iter().filter(|sg| s(&sg["k"]) == "P").count() }
+
+fn build_app(apps: &[Value], idx: usize, t: &router::Table, cors: Option<CORS>, pbase: usize) -> Ohkami {
+    let app = &apps[idx - 1];
+    let mut o = match cors { Some(c) => Ohkami::with((c,), ()), None => Ohkami::new(()) };
+    for it in arr(&app["items"]) {
+        let lit = util::leak(t.route_literal(&it["segs"], pbase));
+        if s(&it["t"]) == "route" {
+            v::apply_handlers(&mut o, with_methods(v::handler_set(lit), arr(&it["methods"]), i(&it["h"])));
+        } else {
+            let child = build_app(apps, i(&it["app"]) as usize, t, None, pbase + nparams(&it["segs"]));
+            v::apply_by(&mut o, v::by_another(lit, child));
+        }
+    }
+    o
+}
+
+fn request_bytes(req: &Value, t: &router::Table, ct: &CTable) -> Vec<u8> {
+    let mut p = String::new();
+    for sg in arr(&req["path"]) { p.push('/'); p.push_str(&t.chars(sg)) }
+    for _ in 0..i(&req["trailing"]) { p.push('/') }
+    if p.is_empty() { p.push('/') }
+    let mut r = format!("{} {} HTTP/1.1\r\nHost: x\r\n", s(&req["method"]), p);
+    let hn = |canon: &str| if ct.lower { canon.to_ascii_lowercase() } else { canon.to_string() };
+    match s(&req["origin"]) { "none" | "" => {} o => r.push_str(&format!("{}: {}\r\n", hn("Origin"), ct.origin(o))) }
+    if !s(&req["acrm"]).is_empty() { r.push_str(&format!("{}: {}\r\n", hn("Access-Control-Request-Method"), s(&req["acrm"]))) }
+    if req["acrh"]["set"].as_bool().unwrap_or(false) {
+        let l: Vec<&str> = arr(&req["acrh"]["list"]).iter().map(|x| ct.name(s(x))).collect();
+        r.push_str(&format!("{}: {}\r\n", hn("Access-Control-Request-Headers"), l.join(ct.sep)));
+    }
+    r.push_str("\r\n");
+    r.into_bytes()
+}
+
+fn exec(router: &v::VRouter, raw: &[u8], head: bool) -> util::ParsedResponse {
+    HIT.with(|h| h.set(0));
+    let out = util::block_on(async {
+        let mut req = v::VRequest::new();
+        let mut rd = raw;
+        let res = match req.read(&mut rd).await { Ok(Some(())) => req.handle(router).await, Ok(None) => Response::new(Status::Gone), Err(e) => e };
+        let mut out = Vec::new();
+        v::send(res, &mut out).await;
+        out
+    });
+    util::parse_response(&out, head)
+}
+
+fn values(p: &util::ParsedResponse, name: &str) -> Vec<String> {
+    p.headers.iter().filter(|(k, _)| k.eq_ignore_ascii_case(name)).map(|(_, v)| v.clone()).collect()
+}
+fn tokens(p: &util::ParsedResponse, name: &str) -> Vec<String> {
+    values(p, name).iter().flat_map(|v| v.split(',').map(|t| t.trim().to_string()).collect::<Vec<_>>()).filter(|t| !t.is_empty()).collect()
+}
+
+pub fn run(scn: &Value) -> Value {
+    let apps = arr(&scn["apps"]);
+    let seed = scn["seed"].as_u64().unwrap_or_else(|| scn["id"].as_u64().unwrap_or(0));
+    let t = router::table(seed);
+    let ct = ctable(seed);
+    let cors = build_cors(&scn["policy"], &ct);
+    // an application the framework refuses to build (conflicting registrations) is not an application: reported, not judged
+    let built = std::panic::catch_unwind(std::panic::AssertUnwindSafe(|| v::finalize(build_app(apps, 1, &t, Some(cors), 0))));
+    let router = match built {
+        Ok(r) => r,
+        Err(_) => { let m = crate::LAST_PANIC.with(|p| p.borrow().clone());
+                    return json!({"kind": "nobuild", "where": util::panic_site(&m), "msg": util::clip(&m, 160), "res": []}) }
+    };
+    let mut res = vec![];
+    let mut first = String::new();
+    for req in arr(&scn["reqs"]) {
+        let raw = request_bytes(req, &t, &ct);
+        if first.is_empty() { first = String::from_utf8_lossy(&raw).to_string() }
+        let head = s(&req["method"]) == "HEAD";
+        let p = exec(&router, &raw, head);
+        res.push(json!({
+            "status": p.status, "blen": p.body.len() as i64, "wf": p.error.is_empty(), "h": HIT.with(|h| h.get()),
+            "acao": values(&p, "Access-Control-Allow-Origin").iter().map(|x| ct.unorigin(x)).collect::<Vec<_>>(),
+            "acac": values(&p, "Access-Control-Allow-Credentials"),
+            "aceh": tokens(&p, "Access-Control-Expose-Headers").iter().map(|x| ct.unname(x)).collect::<Vec<_>>(),
+            "acam": tokens(&p, "Access-Control-Allow-Methods"),
+            "acah": tokens(&p, "Access-Control-Allow-Headers").iter().map(|x| ct.unname(x)).collect::<Vec<_>>(),
+            "acma": values(&p, "Access-Control-Max-Age"),
+        }));
+    }
+    json!({"kind": "cors", "res": res, "first": first,
+           "table": {"o1": ct.o1, "o2": ct.o2, "o3": ct.o3, "names": ct.names, "sep": ct.sep, "lower": ct.lower, "chars": [t.chars(&json!(["a"])), t.chars(&json!(["b"]))]}})
+}
+
+// ------------------------------------------------------------------------------------------------ random generator
+fn seg(rng: &mut Rng, allow_p: bool) -> Value {
+    let segstr = [vec!["a"], vec!["b"], vec!["a", "b"], vec!["a", "a"], vec!["b", "a"], vec!["a", "b", "a"]];
+    if allow_p && rng.chance(1, 4) { json!({"k": "P", "s": []}) } else { json!({"k": "S", "s": rng.pick(&segstr).clone()}) }
+}
+fn same(x: &[Value], y: &[Value]) -> bool { x.len() == y.len() && x.iter().zip(y).all(|(a, b)| a == b) }
+fn starts(x: &[Value], pre: &[Value]) -> bool { x.len() >= pre.len() && same(&x[..pre.len()], pre) }
+fn subset(rng: &mut Rng, all: &[&'static str], allow_empty: bool) -> Vec<&'static str> {
+    loop { let v: Vec<&str> = all.iter().filter(|_| rng.chance(1, 2)).cloned().collect(); if allow_empty || !v.is_empty() { return v } }
+}
+fn hlist(rng: &mut Rng, max: usize) -> Value {
+    let lo = if rng.chance(1, 8) { 0 } else { 1 };
+    let n = rng.range(lo, max);
+    let mut l: Vec<String> = vec![];
+    while l.len() < n { let h = format!("h{}", rng.range(1, 8)); if !l.contains(&h) { l.push(h) } }
+    json!(l)
+}
+
+/// random policies x bigger applications (two mount levels, up to 8 routes, split registrations, routes at mount points)
+/// x requests.  The generator keeps to applications the framework builds: a mounted application never shares a first
+/// segment below its mount point with an item registered BEFORE the mount (static: construction panics; param: two
+/// param siblings), and one method is never registered twice for one pattern.
+pub fn gen(rng: &mut Rng, idx: usize) -> Value {
+    let methods_all = ["GET", "POST", "PUT", "DELETE", "PATCH"];
+    let origin = *rng.pick(&["star", "o1", "o2", "o1"]);
+    let policy = json!({"origin": origin, "cred": rng.chance(1, 2),
+        "allowh": {"set": rng.chance(1, 2), "list": hlist(rng, 4)}, "expose": {"set": rng.chance(1, 2), "list": hlist(rng, 4)},
+        "maxage": *rng.pick(&["", "", "0", "5", "600", "86400", "4294967295"])});
+    // tree of applications: app k+1 (k >= 1) mounted into an earlier one; depth <= 2 mount levels
+    let napps = rng.range(1, 4);
+    let mut level = vec![0usize; napps];
+    let mut parent = vec![0usize; napps];
+    for b in 1..napps { let cand: Vec<usize> = (0..b).filter(|&a| level[a] < 2).collect(); let a = *rng.pick(&cand); parent[b] = a; level[b] = level[a] + 1 }
+    // full prefix (segments) and params above each app
+    let mut prefix: Vec<Vec<Value>> = vec![vec![]; napps];
+    let mut mount_segs: Vec<Vec<Value>> = vec![vec![]; napps];
+    for b in 1..napps {
+        let a = parent[b];
+        let pa = prefix[a].iter().filter(|sg| s(&sg["k"]) == "P").count();
+        let n = rng.below(3);  // 0 = mounted at "/"
+        let mut pre = vec![]; let mut np = 0;
+        for _ in 0..n { let sg = seg(rng, pa + np < 2); if s(&sg["k"]) == "P" { np += 1 } pre.push(sg) }
+        mount_segs[b] = pre.clone();
+        let mut f = prefix[a].clone(); f.extend(pre); prefix[b] = f;
+    }
+    // registrations: (app, local segs, methods); global table full pattern -> methods already registered
+    let mut items: Vec<Vec<Value>> = vec![vec![]; napps];
+    let mut registered: Vec<(Vec<Value>, Vec<&str>)> = vec![];
+    let mut nexth = 1i64;
+    let nroutes = rng.range(1, 8);
+    let mut plan: Vec<(usize, Vec<Value>, Vec<&str>)> = vec![];
+    for _ in 0..nroutes {
+        let a = rng.below(napps);
+        let pa = prefix[a].iter().filter(|sg| s(&sg["k"]) == "P").count();
+        // with some probability re-use an already planned full pattern (split registration / same path from another app)
+        let mut local: Option<Vec<Value>> = None;
+        if !registered.is_empty() && rng.chance(1, 6) {
+            let (full, _) = rng.pick(&registered).clone();
+            if starts(&full, &prefix[a]) { local = Some(full[prefix[a].len()..].to_vec()) }
+        }
+        let local = local.unwrap_or_else(|| { let n = rng.below(3); let mut r = vec![]; let mut np = 0;
+            for _ in 0..n { let sg = seg(rng, pa + np < 2); if s(&sg["k"]) == "P" { np += 1 } r.push(sg) } r });
+        let mut full = prefix[a].clone(); full.extend(local.iter().cloned());
+        let taken: Vec<&str> = registered.iter().filter(|(f, _)| same(f, &full)).flat_map(|(_, m)| m.clone()).collect();
+        let free: Vec<&'static str> = methods_all.iter().filter(|m| !taken.contains(m)).cloned().collect();
+        if free.is_empty() { continue }
+        let ms = subset(rng, &free, false);
+        registered.push((full, ms.clone()));
+        plan.push((a, local, ms));
+    }
+    // item order inside each app: mounts first (so that later routes may share nodes with the mounted application), except
+    // that a mount may come after routes which do not share a first segment below the mount point with the child
+    let firsts_below = |b: usize, plan: &Vec<(usize, Vec<Value>, Vec<&str>)>, prefix: &Vec<Vec<Value>>| -> Vec<Value> {
+        // first segments (relative to app b's root) of everything registered in b's subtree
+        let mut out = vec![];
+        for (a, local, _) in plan { let mut full = prefix[*a].clone(); full.extend(local.iter().cloned());
+            let mut anc = *a; let mut inside = anc == b; while anc != 0 && !inside { anc = parent[anc]; inside = anc == b }
+            if inside && full.len() > prefix[b].len() { out.push(full[prefix[b].len()].clone()) } }
+        out
+    };
+    for a in 0..napps {
+        let children: Vec<usize> = (1..napps).filter(|&b| parent[b] == a).collect();
+        let routes: Vec<&(usize, Vec<Value>, Vec<&str>)> = plan.iter().filter(|(x, _, _)| *x == a).collect();
+        let mut early: Vec<Value> = vec![]; let mut late: Vec<Value> = vec![];
+        let mut placed_before: Vec<Vec<Value>> = vec![];
+        for (_, local, ms) in &routes {
+            let it = json!({"t": "route", "segs": local, "methods": ms, "local": [], "h": nexth, "app": 0}); nexth += 1;
+            // may this route precede the mounts?  only if it does not pass through any child's mount point into a shared first segment
+            let mut ok_before = rng.chance(1, 2);
+            for &b in &children { let ms_ = &mount_segs[b];
+                if starts(local, ms_) { let fb = firsts_below(b, &plan, &prefix);
+                    if local.len() > ms_.len() && (fb.contains(&local[ms_.len()]) || (s(&local[ms_.len()]["k"]) == "P" && fb.iter().any(|f| s(&f["k"]) == "P")) || (s(&local[ms_.len()]["k"]) == "S" && false)) { ok_before = false } } }
+            if ok_before { placed_before.push(local.clone()); early.push(it) } else { late.push(it) }
+        }
+        let mut mounts: Vec<Value> = vec![];
+        let mut seen_children: Vec<usize> = vec![];
+        for &b in &children {
+            // two children whose subtrees share a first segment below a common mount point: the second merge would conflict -> drop the second child's mount
+            let fb = firsts_below(b, &plan, &prefix);
+            let clash = seen_children.iter().any(|&c| { let (mc, mb) = (&mount_segs[c], &mount_segs[b]);
+                let fc = firsts_below(c, &plan, &prefix);
+                (same(mc, mb) && fb.iter().any(|f| fc.contains(f) || (s(&f["k"]) == "P" && fc.iter().any(|g| s(&g["k"]) == "P"))))
+                || (starts(mb, mc) && mb.len() > mc.len() && (fc.contains(&mb[mc.len()]) || (s(&mb[mc.len()]["k"]) == "P" && fc.iter().any(|g| s(&g["k"]) == "P"))))
+                || (starts(mc, mb) && mc.len() > mb.len() && (fb.contains(&mc[mb.len()]) || (s(&mc[mb.len()]["k"]) == "P" && fb.iter().any(|g| s(&g["k"]) == "P")))) });
+            if clash { continue }
+            // an early route passing strictly through this mount point with a param where the child starts with a static (or the reverse) is fine
+            seen_children.push(b);
+            mounts.push(json!({"t": "mount", "segs": mount_segs[b], "methods": [], "local": [], "h": 0, "app": b + 1}));
+        }
+        let mut its = early; its.extend(mounts); its.extend(late);
+        items[a] = its;
+    }
+    // requests: instances of every registered pattern and of every mount prefix, near misses, an unregistered path
+    let mut pats: Vec<Vec<Value>> = registered.iter().map(|(f, _)| f.clone()).collect();
+    for b in 1..napps { pats.push(prefix[b].clone()) }
+    let mut reqs = vec![];
+    let pf = ["GET", "POST", "PUT", "DELETE", "PATCH", "HEAD", "OPTIONS", "FOO", "get", "TRACE"];
+    let simple = ["GET", "POST", "PUT", "DELETE", "PATCH", "HEAD", "OPTIONS"];
+    let mut paths: Vec<Vec<Vec<&str>>> = vec![];
+    for f in &pats {
+        for w in [vec!["b", "b"], vec!["a"]] {
+            let inst: Vec<Vec<&str>> = f.iter().map(|sg| if s(&sg["k"]) == "S" { arr(&sg["s"]).iter().map(s).collect() } else { w.clone() }).collect();
+            if !paths.contains(&inst) { paths.push(inst.clone()) }
+            if rng.chance(1, 3) { let mut x = inst.clone(); x.push(vec!["a"]); if !paths.contains(&x) { paths.push(x) } }
+            if rng.chance(1, 3) && !inst.is_empty() { let mut x = inst.clone(); x.pop(); if !paths.contains(&x) { paths.push(x) } }
+        }
+    }
+    paths.push(vec![vec!["b", "b", "b"], vec!["a"]]);
+    for p in &paths {
+        let tr = if p.is_empty() { 1 } else { rng.below(2) };
+        for m in pf.iter() {
+            if rng.chance(1, 3) { continue }
+            let acrh = json!({"set": rng.chance(1, 2), "list": hlist(rng, 3)});
+            reqs.push(json!({"method": "OPTIONS", "path": p, "trailing": tr, "acrm": m, "acrh": acrh, "origin": *rng.pick(&["none", "o1", "o2", "o3"])}));
+        }
+        for m in simple.iter() {
+            if rng.chance(1, 2) { continue }
+            reqs.push(json!({"method": m, "path": p, "trailing": tr, "acrm": "", "acrh": {"set": rng.chance(1, 4), "list": hlist(rng, 2)}, "origin": *rng.pick(&["none", "o1", "o3"])}));
+        }
+    }
+    json!({"id": idx, "seed": rng.next() % 1000, "policy": policy,
+           "apps": items.iter().map(|its| json!({"fangs": [], "items": its})).collect::<Vec<_>>(), "reqs": reqs})
+}
